@@ -5,6 +5,29 @@ import gen
 import pyspec
 import ssuite
 
+def _f20_mechanism(s, v):
+    """F20 is a specific thing: every alternative that accepts v as it stands REFUSES the substitution (a relaxed dict given
+    an undeclared key), and an alternative v merely substitutes into is kept.  Where S itself is the union this is
+    decided exactly; an alternative that accepts v and can be substituted with it, yet is dropped, is another defect."""
+    from d42 import substitute
+    from d42.declaration.types import AnySchema
+    from d42.substitution.errors import SubstitutionError
+    from niltype import Nil
+    if type(s) is not AnySchema or s.props.get("types") is Nil:
+        return True            # below the root: the shape is all that is known here (the model still compares the outcome)
+    for t in s.props.get("types"):
+        try:
+            if ssuite.accepts(t, v):
+                try:
+                    substitute(t, v)
+                    return False
+                except SubstitutionError:
+                    pass
+        except Exception:  # noqa
+            pass
+    return True
+
+
 PROPS_FILE = "props/C04.v"
 MODEL_FILES = ["theories/Substitute.v", "theories/CaseSubst.v", "theories/Agree.v", "theories/ChoiceFree.v"]
 EXTRA_TRUSTED = [
@@ -78,6 +101,8 @@ def run(ctx):
         if s_accepts and r_accepts is False:
             rejected_own.append(c)
             kinds = ssuite.choice_over_dicts(c.schema)
+            if "F20" in kinds and not _f20_mechanism(c.schema, v):
+                kinds.discard("F20")
             ex = f"S={c.ssrc}, v={c.vsrc()}"
             if "F20" in kinds and ctx.known_finding("F20", ex):
                 pass
